@@ -74,7 +74,288 @@ ALWAYS_EXPAND = frozenset((
     "gunicorn.workers.sync.SyncWorker.accept",
 ))
 
+BASELINE_NAMES_FILE = os.path.join(_HERE, "baseline_names.txt")
 _baseline = None
+_baseline_names = None
+
+
+def baseline_names():
+    """(module-level names, function signatures) of the reference tree: {"module:NAME"}, {"qualname": (params..)}"""
+    global _baseline_names
+    if _baseline_names is None:
+        names, sigs = set(), {}
+        with open(BASELINE_NAMES_FILE) as f:
+            for l in f:
+                l = l.strip()
+                if not l or l.startswith("#"):
+                    continue
+                if l.startswith("N "):
+                    names.add(l[2:])
+                elif l.startswith("S "):
+                    q, _, ps = l[2:].partition("(")
+                    sigs[q] = tuple(x for x in ps.rstrip(")").split(",") if x)
+        _baseline_names = (names, sigs)
+    return _baseline_names
+
+
+def module_names_and_sigs(modules):
+    """inventory used for the baseline file and for comparing a tree against it"""
+    names, sigs = set(), {}
+    for m in modules.values():
+        for st in m.tree.body:
+            for t in (st.targets if isinstance(st, ast.Assign) else [st.target] if isinstance(st, (ast.AnnAssign, ast.AugAssign)) else []):
+                for n in ast.walk(t):
+                    if isinstance(n, ast.Name):
+                        names.add("%s:%s" % (m.name, n.id))
+
+        def visit(body, prefix):
+            for st in body:
+                if isinstance(st, (ast.FunctionDef, ast.AsyncFunctionDef)):
+                    a = st.args
+                    ps = [x.arg for x in a.posonlyargs + a.args] + ([("*" + a.vararg.arg)] if a.vararg else []) + [x.arg for x in a.kwonlyargs] + ([("**" + a.kwarg.arg)] if a.kwarg else [])
+                    sigs["%s.%s" % (prefix, st.name)] = tuple(ps)
+                elif isinstance(st, ast.ClassDef):
+                    visit(st.body, "%s.%s" % (prefix, st.name))
+        visit(m.tree.body, m.name)
+    return names, sigs
+
+
+def _const_expr(e):
+    """an immutable, side-effect free expression: literals, tuples of such, dotted names (errno.EAGAIN), arithmetic on them"""
+    if isinstance(e, ast.Constant):
+        return True
+    if isinstance(e, ast.Tuple):
+        return all(_const_expr(x) for x in e.elts)
+    if isinstance(e, ast.Attribute):
+        return _const_expr(e.value) if isinstance(e.value, ast.Attribute) else isinstance(e.value, ast.Name)
+    if isinstance(e, ast.UnaryOp):
+        return _const_expr(e.operand)
+    if isinstance(e, ast.BinOp):
+        return _const_expr(e.left) and _const_expr(e.right)
+    return False
+
+
+def _simplify(e):
+    """fold arithmetic on literals (`b"\\r\\n" + b"\\r\\n"`, `2 * 4096`) into one literal"""
+    if isinstance(e, ast.BinOp):
+        l, r = _simplify(e.left), _simplify(e.right)
+        if isinstance(l, ast.Constant) and isinstance(r, ast.Constant) and isinstance(e.op, (ast.Add, ast.Sub, ast.Mult)):
+            try:
+                a, b = l.value, r.value
+                if type(a) in (int, float, str, bytes) and type(b) in (int, float, str, bytes):
+                    v = a + b if isinstance(e.op, ast.Add) else a - b if isinstance(e.op, ast.Sub) else a * b
+                    if not isinstance(v, (str, bytes)) or len(v) < 4096:
+                        return ast.copy_location(ast.Constant(value=v), e)
+            except Exception:
+                pass
+        e.left, e.right = l, r
+        return e
+    if isinstance(e, ast.Tuple):
+        e.elts = [_simplify(x) for x in e.elts]
+    return e
+
+
+def _scope_binds(fn):
+    """names bound in a function scope (parameters, stores, imports, nested defs)"""
+    out = set()
+    a = fn.args
+    for x in a.posonlyargs + a.args + a.kwonlyargs + ([a.vararg] if a.vararg else []) + ([a.kwarg] if a.kwarg else []):
+        out.add(x.arg)
+    for n in ast.walk(fn):
+        if isinstance(n, ast.Name) and isinstance(n.ctx, (ast.Store, ast.Del)):
+            out.add(n.id)
+        elif isinstance(n, (ast.FunctionDef, ast.AsyncFunctionDef, ast.ClassDef)) and n is not fn:
+            out.add(n.name)
+        elif isinstance(n, ast.alias):
+            out.add((n.asname or n.name).split(".")[0])
+        elif isinstance(n, ast.ExceptHandler) and n.name:
+            out.add(n.name)
+    return out
+
+
+class _ConstFolder(ast.NodeTransformer):
+    def __init__(self, consts):
+        self.consts = consts
+        self.shadow = [set()]
+        self.count = 0
+
+    def _fn(self, node):
+        # defaults and decorators are evaluated in the enclosing scope
+        node.args.defaults = [self.visit(d) for d in node.args.defaults]
+        node.args.kw_defaults = [self.visit(d) if d is not None else None for d in node.args.kw_defaults]
+        self.shadow.append(_scope_binds(node))
+        node.body = [self.visit(st) for st in node.body]
+        self.shadow.pop()
+        return node
+    visit_FunctionDef = _fn
+    visit_AsyncFunctionDef = _fn
+
+    def visit_Lambda(self, node):
+        self.shadow.append(set(x.arg for x in node.args.args + node.args.kwonlyargs))
+        node.body = self.visit(node.body)
+        self.shadow.pop()
+        return node
+
+    def visit_Name(self, node):
+        if isinstance(node.ctx, ast.Load) and node.id in self.consts and not any(node.id in sc for sc in self.shadow[1:]):
+            self.count += 1
+            new = copy.deepcopy(self.consts[node.id])
+            for n in ast.walk(new):
+                ast.copy_location(n, node)
+                n._inl = True
+            return new
+        return node
+
+
+def fold_new_constants(modules):
+    """Normal form for *introduce named constant*: a module-level name that the reference tree does not have, bound once at
+    module level to an immutable constant expression and never rebound, is replaced by that expression wherever the module
+    reads it (`POLL_TIMEOUT = 1.0 ... select(POLL_TIMEOUT)` is `select(1.0)`), also through `from mod import NAME`."""
+    base_names, _ = baseline_names()
+    total = 0
+    per_mod = {}
+    for m in modules.values():
+        cands = {}
+        stores = {}
+        for n in ast.walk(m.tree):
+            if isinstance(n, ast.Name) and isinstance(n.ctx, (ast.Store, ast.Del)):
+                stores[n.id] = stores.get(n.id, 0) + 1
+            elif isinstance(n, ast.Global):
+                for g in n.names:
+                    stores[g] = stores.get(g, 0) + 2
+        for st in m.tree.body:
+            tgt = val = None
+            if isinstance(st, ast.Assign) and len(st.targets) == 1 and isinstance(st.targets[0], ast.Name):
+                tgt, val = st.targets[0].id, st.value
+            elif isinstance(st, ast.AnnAssign) and isinstance(st.target, ast.Name) and st.value is not None:
+                tgt, val = st.target.id, st.value
+            if tgt is None or ("%s:%s" % (m.name, tgt)) in base_names:
+                continue
+            if not _const_expr(val):
+                # a constant built from earlier new constants of this module (`HEADERS_END = CRLF + CRLF`)
+                val2 = _ConstFolder(dict(cands)).visit(copy.deepcopy(val))
+                if not _const_expr(val2):
+                    continue
+                val = val2
+            val = _simplify(copy.deepcopy(val))
+            # bound once in the whole module (function-local stores of the same name shadow, they do not rebind; a
+            # `global` declaration does)
+            top = sum(1 for s2 in m.tree.body for t in (s2.targets if isinstance(s2, ast.Assign) else [s2.target] if isinstance(s2, (ast.AnnAssign, ast.AugAssign)) else [])
+                      for x in ast.walk(t) if isinstance(x, ast.Name) and x.id == tgt)
+            if top != 1 or any(isinstance(n, ast.Global) and tgt in n.names for n in ast.walk(m.tree)):
+                continue
+            cands[tgt] = val
+        per_mod[m.name] = cands
+    # constants folded into constants (`B = A + 1`)
+    for _ in range(3):
+        for mn, cands in per_mod.items():
+            for k in list(cands):
+                f = _ConstFolder({x: v for x, v in cands.items() if x != k})
+                cands[k] = f.visit(copy.deepcopy(cands[k]))
+    for m in modules.values():
+        consts = dict(per_mod.get(m.name, {}))
+        # names imported from sibling modules
+        for st in m.tree.body:
+            if isinstance(st, ast.ImportFrom) and st.module is not None:
+                src = st.module if st.level == 0 else None
+                if st.level:
+                    pkg = m.name.split(".")
+                    pkg = pkg[:len(pkg) - st.level + (1 if getattr(m, "is_pkg", False) else 0)]
+                    src = ".".join(pkg + ([st.module] if st.module else []))
+                for al in st.names:
+                    if src in per_mod and al.name in per_mod[src]:
+                        consts[al.asname or al.name] = per_mod[src][al.name]
+        if not consts:
+            continue
+        f = _ConstFolder(consts)
+        new_body = []
+        for st in m.tree.body:
+            if isinstance(st, (ast.Assign, ast.AnnAssign)) and any(isinstance(t, ast.Name) and t.id in per_mod.get(m.name, {}) for t in (st.targets if isinstance(st, ast.Assign) else [st.target])):
+                new_body.append(st)          # the definition itself stays
+            else:
+                new_body.append(f.visit(st))
+        m.tree.body = new_body
+        total += f.count
+    return total
+
+
+def bind_unpassed_defaults(modules):
+    """Normal form for *add a keyword parameter nobody passes*: a parameter that the reference tree's signature of the
+    function does not have, with an immutable constant default, that no call in the package supplies (by keyword, or by
+    position beyond the old signature), becomes a local bound to its default at the top of the function."""
+    _, base_sigs = baseline_names()
+    _, sigs = module_names_and_sigs(modules)
+    # how are functions of each name called anywhere in the package?
+    calls = {}
+    for m in modules.values():
+        for n in ast.walk(m.tree):
+            if isinstance(n, ast.Call):
+                nm = n.func.attr if isinstance(n.func, ast.Attribute) else (n.func.id if isinstance(n.func, ast.Name) else None)
+                if nm:
+                    calls.setdefault(nm, []).append(n)
+    done = 0
+    for m in modules.values():
+        def visit(body, prefix):
+            nonlocal done
+            for st in body:
+                if isinstance(st, ast.ClassDef):
+                    visit(st.body, "%s.%s" % (prefix, st.name))
+                elif isinstance(st, (ast.FunctionDef, ast.AsyncFunctionDef)):
+                    q = "%s.%s" % (prefix, st.name)
+                    if q not in base_sigs:
+                        continue
+                    old = set(x.lstrip("*") for x in base_sigs[q])
+                    a = st.args
+                    if a.vararg is not None or a.posonlyargs:
+                        continue
+                    pos = a.args
+                    ndef = len(a.defaults)
+                    new_tail = []
+                    # only a suffix of the positional parameters can be dropped without renumbering the others
+                    i = len(pos) - 1
+                    while i >= 0 and pos[i].arg not in old and (len(pos) - i) <= ndef and _const_expr(a.defaults[ndef - (len(pos) - i)]):
+                        new_tail.append(i)
+                        i -= 1
+                    kw_new = [j for j, x in enumerate(a.kwonlyargs) if x.arg not in old and a.kw_defaults[j] is not None and _const_expr(a.kw_defaults[j])]
+                    if not new_tail and not kw_new:
+                        continue
+                    first_new = min(new_tail) if new_tail else len(pos)
+                    is_method = prefix != m.name and pos and pos[0].arg in ("self", "cls")
+                    names_new = set(pos[k].arg for k in new_tail) | set(a.kwonlyargs[j].arg for j in kw_new)
+                    passed = False
+                    for c in calls.get(st.name, []):
+                        npos_allowed = first_new - (1 if is_method and isinstance(c.func, ast.Attribute) else 0)
+                        if len(c.args) > npos_allowed or any(isinstance(x, ast.Starred) for x in c.args) or any(k.arg is None or k.arg in names_new for k in c.keywords):
+                            passed = True
+                    # the function handed around as a value (callback) could be called with anything
+                    refs = sum(1 for mm in modules.values() for n in ast.walk(mm.tree)
+                               if (isinstance(n, ast.Attribute) and n.attr == st.name) or (isinstance(n, ast.Name) and n.id == st.name and isinstance(n.ctx, ast.Load)))
+                    called = sum(1 for c in calls.get(st.name, []))
+                    if passed or refs > called:
+                        continue
+                    binds = []
+                    for k in sorted(new_tail):
+                        d = a.defaults[ndef - (len(pos) - k)]
+                        b = ast.Assign(targets=[ast.Name(id=pos[k].arg, ctx=ast.Store())], value=d, lineno=st.lineno)
+                        binds.append(b)
+                    for j in kw_new:
+                        b = ast.Assign(targets=[ast.Name(id=a.kwonlyargs[j].arg, ctx=ast.Store())], value=a.kw_defaults[j], lineno=st.lineno)
+                        binds.append(b)
+                    if new_tail:
+                        a.defaults = a.defaults[:ndef - len(new_tail)]
+                        a.args = pos[:first_new]
+                    if kw_new:
+                        a.kw_defaults = [d for j, d in enumerate(a.kw_defaults) if j not in kw_new]
+                        a.kwonlyargs = [x for j, x in enumerate(a.kwonlyargs) if j not in kw_new]
+                    for b in binds:
+                        ast.copy_location(b, st.body[0])
+                        ast.fix_missing_locations(b)
+                        b._inl = True
+                    k0 = 1 if (st.body and isinstance(st.body[0], ast.Expr) and isinstance(st.body[0].value, ast.Constant) and isinstance(st.body[0].value.value, str)) else 0
+                    st.body = st.body[:k0] + binds + st.body[k0:]
+                    done += len(binds)
+        visit(m.tree.body, m.name)
+    return done
 
 
 def baseline():
@@ -1144,7 +1425,7 @@ def forward_temps(repo):
                     s1, s2 = stmts[i], stmts[i + 1]
                     if isinstance(s1, ast.Assign) and len(s1.targets) == 1 and isinstance(s1.targets[0], ast.Name):
                         x = s1.targets[0].id
-                        if stores.get(x) == 1 and len(loads.get(x, ())) == 1 and x not in hidden and not x.startswith("__ret_"):
+                        if stores.get(x) == 1 and len(loads.get(x, ())) == 1 and x not in hidden and not (x.startswith("__ret_") and isinstance(s2, (ast.If, ast.While))):
                             use = loads[x][0]
                             ok = False
                             done = False
